@@ -2,13 +2,22 @@ import CedarVerif.Lemmas.JsonRoundTrip
 import CedarVerif.Lemmas.JsonRefuse
 import CedarVerif.Lemmas.JsonExt
 import CedarVerif.Lemmas.JsonEntity
+import CedarVerif.Lemmas.JsonTypedMain
+import CedarVerif.Lemmas.JsonIp
 /-
 C10 — entity / context / value JSON round trip; schema-directed parsing agrees with the escapes.
 
 Model: `Cedar/Json/{Json,SchemaType,Value}.lean` (mirrors of `CedarValueJson`, `from_value`, `into_expr`,
 `ValueParser::val_into_restricted_expr`, `EntityJson`), tied to the code by the `c10` stream.
 Hypotheses that appear below are facts about Rust values: `WF v` (longs are i64, entity type names are `Name`s,
-records are key-sorted `BTreeMap`s).
+records are key-sorted `BTreeMap`s), `RustExt` (i64 payloads, u32/u128 addresses, prefix within the family's width),
+`ClosedType τ` (closed record types whose attribute maps are `BTreeMap`s).
+
+What is proved: `json_roundtrip` (+ `_rustExt`: no hypothesis left; `ExtRoundTrip` holds for decimal, datetime,
+duration, every IPv4 value and every IPv6 value that is not IPv4-mapped, and is FALSE for IPv4-mapped IPv6 addresses —
+`extRoundTrip_ip_v6_mapped_false`, a recorded observation); `toJson_refuses_iff`; `typed_agrees_explicit` for all
+nesting depths over closed record types (the unrestricted statement is proved false: `typedAgreesExplicit_unrestricted_false`);
+`entity_roundtrip`, `store_roundtrip`.
 -/
 namespace Cedar.C10
 open Cedar Cedar.CJson
@@ -21,6 +30,45 @@ def ExtRoundTrip (x : Ext) : Prop := LeafOK canonRepr x
 theorem extRoundTrip_duration (ms : Int) (h : inI64 ms = true) : ExtRoundTrip (.duration ms) := leaf_duration ms h
 theorem extRoundTrip_datetime (ms : Int) (h : inI64 ms = true) : ExtRoundTrip (.datetime ms) := leaf_datetime ms h
 theorem extRoundTrip_decimal (v : Int) (h : inI64 v = true) : ExtRoundTrip (.decimal v) := leaf_decimal v h
+
+/-- ipaddr: the leaf round trips exactly when `ip()` parses the canonical text `Display` prints back to the same
+    (family, address, prefix) -/
+theorem extRoundTrip_ip_iff (v6 : Bool) (a p : Nat) :
+    ExtRoundTrip (.ipaddr v6 a p) ↔
+      Ext.IPAddr.parse (String.ofList (renderIp v6 a p)) = some (.ipaddr v6 a p) := by
+  constructor
+  · intro h
+    cases hp : decide (Ext.IPAddr.parse (String.ofList (renderIp v6 a p)) = some (.ipaddr v6 a p)) with
+    | true => exact of_decide_eq_true hp
+    | false => exact absurd h (not_leaf_ip_of_parse v6 a p (of_decide_eq_false hp))
+  · exact leaf_ip_of_parse v6 a p
+
+/-- **every IPv4 value round trips** (32-bit address, prefix ≤ 32: what an `IPAddr` holding an `Ipv4Addr` is) -/
+theorem extRoundTrip_ip_v4 (a p : Nat) (ha : a < 2 ^ 32) (hp : p ≤ 32) : ExtRoundTrip (.ipaddr false a p) :=
+  leaf_ip_v4 a p ha hp
+
+/-- **every IPv6 value that is not an IPv4-mapped address round trips** (128-bit address, prefix ≤ 128;
+    `isV4Mapped a` = the first five segments are 0 and the sixth is `ffff`, the case `Display for Ipv6Addr` prints
+    with an embedded dotted quad) -/
+theorem extRoundTrip_ip_v6 (a p : Nat) (ha : a < 2 ^ 128) (hp : p ≤ 128) (hm : isV4Mapped a = false) :
+    ExtRoundTrip (.ipaddr true a p) :=
+  leaf_ip_v6 a p ha hp hm
+
+/-- **the excluded class, a recorded observation**: for an IPv4-mapped IPv6 address the canonical text is
+    `::ffff:a.b.c.d/p`, which `ip()` refuses (≥ 2 ':' and ≥ 2 '.'), so such a value does NOT round trip through its
+    `canonical_repr` — for every prefix. (The implementation agrees: `c10` stream; such values can only be built by
+    `ip()` from a pure-hex spelling, e.g. `ip("::ffff:102:304")`, and Rust serialises the constructor call it
+    stored, not the canonical text.) -/
+theorem extRoundTrip_ip_v6_mapped_false (a p : Nat) (hm : isV4Mapped a = true) : ¬ ExtRoundTrip (.ipaddr true a p) :=
+  not_leaf_ip_v6_mapped a p hm
+
+example : ExtRoundTrip (.ipaddr false 0xc0a80001 24) := extRoundTrip_ip_v4 _ _ (by decide) (by decide)
+example : ExtRoundTrip (.ipaddr true 1 128) := extRoundTrip_ip_v6 _ _ (by decide) (by decide) (by decide)
+example : ExtRoundTrip (.ipaddr true (255 * 2 ^ 120) 8) := extRoundTrip_ip_v6 _ _ (by decide) (by decide) (by decide)
+example : String.ofList (renderIp true 0xffff01020304 128) = "::ffff:1.2.3.4/128" ∧
+    Ext.IPAddr.parse "::ffff:102:304" = some (.ipaddr true 0xffff01020304 128) ∧
+    ¬ ExtRoundTrip (.ipaddr true 0xffff01020304 128) :=
+  ⟨by decide +kernel, by decide +kernel, extRoundTrip_ip_v6_mapped_false _ _ (by decide)⟩
 
 /-- what `ExtRoundTrip x` means at the level of `ofJson`/`toJson` -/
 theorem extRoundTrip_ofJson (x : Ext) (h : ExtRoundTrip x) :
@@ -59,7 +107,9 @@ theorem json_roundtrip_with (ρ : Ext → String × List Expr) (v : Value) (j : 
 
 /-- **json_roundtrip**: `toJson v = ok j → ofJson j = ok v'` with `v' == v` (Cedar equality), for every
     well-formed value — nested sets and records, entity references, strings, i64 extremes — whose extension
-    leaves satisfy `ExtRoundTrip` (proved for decimal, datetime, duration; a hypothesis for ipaddr). -/
+    leaves satisfy `ExtRoundTrip` (proved for decimal, datetime, duration, every IPv4 value and every IPv6 value
+    that is not IPv4-mapped; false for IPv4-mapped IPv6 addresses: `extRoundTrip_ip_v6_mapped_false`;
+    hypothesis-free version: `json_roundtrip_rustExt`). -/
 theorem json_roundtrip (v : Value) (j : Json) (hwf : WF v) (hext : AllExt ExtRoundTrip v) (h : toJson v = .ok j) :
     ∃ v', ofJson j = .ok v' ∧ Value.beq v v' = true :=
   json_roundtrip_with canonRepr v j hwf hext h
@@ -77,6 +127,35 @@ theorem extRoundTrip_of_noIp (x : Ext) (h : NoIp x) : ExtRoundTrip x := by
   | datetime ms => exact extRoundTrip_datetime ms h
   | duration ms => exact extRoundTrip_duration ms h
   | ipaddr => exact absurd h id
+
+/-- the extension values a Rust `Value` can hold — i64 payloads; an `IPAddr` is a u32 address with prefix ≤ 32 or a
+    u128 address with prefix ≤ 128 — minus the IPv4-mapped IPv6 addresses -/
+def RustExt : Ext → Prop
+  | .decimal v => inI64 v = true
+  | .datetime ms => inI64 ms = true
+  | .duration ms => inI64 ms = true
+  | .ipaddr false a p => a < 2 ^ 32 ∧ p ≤ 32
+  | .ipaddr true a p => a < 2 ^ 128 ∧ p ≤ 128 ∧ isV4Mapped a = false
+
+theorem extRoundTrip_of_rustExt (x : Ext) (h : RustExt x) : ExtRoundTrip x := by
+  cases x with
+  | decimal v => exact extRoundTrip_decimal v h
+  | datetime ms => exact extRoundTrip_datetime ms h
+  | duration ms => exact extRoundTrip_duration ms h
+  | ipaddr v6 a p =>
+    cases v6 with
+    | false => exact extRoundTrip_ip_v4 a p h.1 h.2
+    | true => exact extRoundTrip_ip_v6 a p h.1 h.2.1 h.2.2
+
+/-- within the value ranges of Rust extension values, `ExtRoundTrip` fails exactly on the IPv4-mapped IPv6 addresses -/
+theorem extRoundTrip_ip_v6_iff (a p : Nat) (ha : a < 2 ^ 128) (hp : p ≤ 128) :
+    ExtRoundTrip (.ipaddr true a p) ↔ isV4Mapped a = false := by
+  constructor
+  · intro h
+    cases hm : isV4Mapped a with
+    | false => rfl
+    | true => exact absurd h (extRoundTrip_ip_v6_mapped_false a p hm)
+  · exact extRoundTrip_ip_v6 a p ha hp
 
 mutual
 theorem allExt_mono {P Q : Ext → Prop} (hpq : ∀ x, P x → Q x) : ∀ v, AllExt P v → AllExt Q v
@@ -96,6 +175,21 @@ end
 theorem json_roundtrip_noIp (v : Value) (j : Json) (hwf : WF v) (hext : AllExt NoIp v) (h : toJson v = .ok j) :
     ∃ v', ofJson j = .ok v' ∧ Value.beq v v' = true :=
   json_roundtrip v j hwf (allExt_mono extRoundTrip_of_noIp v hext) h
+
+/-- **json_roundtrip, no hypothesis left**: for every well-formed value whose extension leaves are Rust extension
+    values other than IPv4-mapped IPv6 addresses (all four extension types, both ip families) -/
+theorem json_roundtrip_rustExt (v : Value) (j : Json) (hwf : WF v) (hext : AllExt RustExt v) (h : toJson v = .ok j) :
+    ∃ v', ofJson j = .ok v' ∧ Value.beq v v' = true :=
+  json_roundtrip v j hwf (allExt_mono extRoundTrip_of_rustExt v hext) h
+
+example : ∃ j v', toJson (.set [.ext (.ipaddr false 0x0a000001 8), .ext (.ipaddr true (2 ^ 112) 16)]) = .ok j ∧
+    ofJson j = .ok v' ∧ Value.beq (.set [.ext (.ipaddr false 0x0a000001 8), .ext (.ipaddr true (2 ^ 112) 16)]) v' = true := by
+  have hx : AllExt RustExt (.set [.ext (.ipaddr false 0x0a000001 8), .ext (.ipaddr true (2 ^ 112) 16)]) := by
+    simp only [AllExt, AllExtList, RustExt]
+    decide
+  obtain ⟨c, hc⟩ := (refuse_value (.set [.ext (.ipaddr false 0x0a000001 8), .ext (.ipaddr true (2 ^ 112) 16)])).2 (by decide)
+  obtain ⟨v', h1, h2⟩ := json_roundtrip_rustExt _ c.toJson (by simp [WF, WFList]) hx (by simp [toJson, toJsonWith, hc])
+  exact ⟨c.toJson, v', by simp [toJson, toJsonWith, hc], h1, h2⟩
 
 /-- non-vacuity: a nested value with an entity reference, an i64 extreme, an empty set, a record whose keys
     look like escape payload fields, and extension values -/
@@ -143,69 +237,110 @@ example : ∃ j, toJson (.record [("type", .prim (.string "User")), ("id", .prim
 
 /-! ### schema-directed parsing agrees with the explicit forms -/
 
-mutual
-/-- `v` is an instance of `τ` (value-level conformance; the checker itself is C11's subject) -/
-def instOf : Value → SchemaType → Bool
-  | .prim (.bool _), .bool => true
-  | .prim (.int _), .long => true
-  | .prim (.string _), .string => true
-  | .prim (.entityUID u), .entity ty => u.ty == ty
-  | .ext (.decimal _), .ext n => n == "decimal"
-  | .ext (.ipaddr ..), .ext n => n == "ipaddr"
-  | .ext (.datetime _), .ext n => n == "datetime"
-  | .ext (.duration _), .ext n => n == "duration"
-  | .set [], .emptySet => true
-  | .set vs, .set τ => instOfList vs τ
-  | .record kvs, .record attrs openAttrs =>
-    instOfKVs kvs attrs openAttrs && attrs.all (fun a => !a.2.1 || (lookupKV kvs a.1).isSome)
-  | _, _ => false
-def instOfList : List Value → SchemaType → Bool
-  | [], _ => true
-  | v :: vs, τ => instOf v τ && instOfList vs τ
-def instOfKVs : List (String × Value) → List (String × Bool × SchemaType) → Bool → Bool
-  | [], _, _ => true
-  | (k, v) :: kvs, attrs, openAttrs =>
-    (match lookupKV attrs k with
-     | some (_, τ) => instOf v τ
-     | none => openAttrs) && instOfKVs kvs attrs openAttrs
-end
+-- `instOf v τ` (value-level conformance), `Form τ v j` (the documents for `v` under expected type `τ`: implicit or
+-- explicit per node) and `ClosedType τ` (closed record types, attribute maps key-sorted `BTreeMap`s) are defined in
+-- `Lemmas/JsonTypedDefs.lean` (namespace `Cedar.C10`).
 
-mutual
-/-- `Form τ v j`: `j` is one of the documents for `v` under expected type `τ`, each entity reference / extension
-    value written either with its explicit escape or in an implicit form the schema allows -/
-inductive Form : Option SchemaType → Value → Json → Prop
-  | lit (τ) (p : Prim) : (∀ u, p ≠ .entityUID u) → Form τ (.prim p) (CJ.ofPrim p).toJson
-  | entExplicit (τ) (u : EntityUID) : Form τ (.prim (.entityUID u)) (CJ.ofPrim (.entityUID u)).toJson
-  | entImplicit (ty) (u : EntityUID) : Form (some (.entity ty)) (.prim (.entityUID u)) (uidJson u)
-  | extExplicit (τ) (x : Ext) (j : Json) : toJson (.ext x) = .ok j → Form τ (.ext x) j
-  | extImplicit (n) (x : Ext) (payload : Json) :
-      toJson (.ext x) = .ok (.obj [("__extn", payload)]) → Form (some (.ext n)) (.ext x) payload
-  | extBare (n) (x : Ext) (f s : String) :
-      toJson (.ext x) = .ok (.obj [("__extn", .obj [("fn", .str f), ("arg", .str s)])]) → singleArgCtor n = some f →
-      Form (some (.ext n)) (.ext x) (.str s)
-  | set (τ : Option SchemaType) (vs : List Value) (js : List Json) :
-      FormList (match τ with | some (.set e) => some e | _ => none) vs js → Form τ (.set vs) (.arr js)
-  | record (τ : Option SchemaType) (kvs : List (String × Value)) (js : List (String × Json)) :
-      FormKVs (match τ with | some (.record attrs _) => attrs | _ => []) kvs js → Form τ (.record kvs) (.obj js)
-inductive FormList : Option SchemaType → List Value → List Json → Prop
-  | nil (τ) : FormList τ [] []
-  | cons (τ) (v : Value) (j : Json) (vs : List Value) (js : List Json) :
-      Form τ v j → FormList τ vs js → FormList τ (v :: vs) (j :: js)
-inductive FormKVs : List (String × Bool × SchemaType) → List (String × Value) → List (String × Json) → Prop
-  | nil (attrs) : FormKVs attrs [] []
-  | cons (attrs) (k : String) (v : Value) (j : Json) (kvs : List (String × Value)) (js : List (String × Json)) :
-      Form ((lookupKV attrs k).map (·.2)) v j → FormKVs attrs kvs js → FormKVs attrs ((k, v) :: kvs) ((k, j) :: js)
-end
-
-/-- **typed_agrees_explicit**, full statement: for a well-formed, serialisable instance `v` of `τ` whose record
-    types are closed, every document for `v` (any implicit/explicit choice per node) parses under `τ` to a value
-    equal to `v`, and the fully explicit document parses the same with and without the type. -/
+/-- **typed_agrees_explicit**, as first stated (no hypothesis on `τ`): for a well-formed, serialisable instance `v`
+    of `τ`, every document for `v` (any implicit/explicit choice per node) parses under `τ` to a value equal to `v`,
+    and the fully explicit document parses the same with and without the type.
+    FALSE of the model (and of the implementation) for open record types — `typedAgreesExplicit_unrestricted_false`
+    below — and for "types" that declare an attribute twice (not a `BTreeMap`; second `example` below).  The precise
+    statement is `TypedAgreesExplicitClosed`, proved as `typed_agrees_explicit`. -/
 def TypedAgreesExplicit : Prop :=
   ∀ (τ : SchemaType) (v : Value), instOf v τ = true → WF v → hasReserved v = false → AllExt ExtRoundTrip v →
     (∀ j, Form (some τ) v j → ∃ v', ofJsonTyped τ j = .ok v' ∧ Value.beq v v' = true) ∧
     (∀ j, toJson v = .ok j → ofJsonTyped τ j = ofJson j)
 
-/-- part of `TypedAgreesExplicit` (explicit documents, types without special parsing rules): under `bool`,
+/-- counterexample to the unrestricted statement: an open record type drops the members it does not declare
+    (the implementation does the same: `c10` stream, `open-record` cases) -/
+theorem typedAgreesExplicit_unrestricted_false : ¬ TypedAgreesExplicit := by
+  intro h
+  have hform : Form (some (.record [] true)) (.record [("x", .prim (.int 1))]) (.obj [("x", .int 1)]) :=
+    .record _ _ _ (.cons _ "x" _ _ _ _ (.lit _ (.int 1) (by intro u hu; cases hu)) (.nil _))
+  obtain ⟨v', h1, h2⟩ := (h (.record [] true) (.record [("x", .prim (.int 1))]) (by decide)
+    (by simp only [WF, WFKVs, Sorted, List.map]; decide) (by decide) (by simp [AllExt, AllExtKVs])).1 _ hform
+  have : ofJsonTyped (.record [] true) (.obj [("x", .int 1)]) = .ok (.record []) := by rfl
+  rw [this] at h1
+  cases h1
+  simp [Value.beq, Value.beqKVs] at h2
+
+/-- a "record type" declaring `a` twice is not a Rust `SchemaType` (attributes are a `BTreeMap`); for such a list
+    the walk over the declarations parses the member once per declaration -/
+example : instOf (.record [("a", .prim (.int 1))]) (.record [("a", true, .long), ("a", true, .ext "decimal")] false) = true ∧
+    ofJsonTyped (.record [("a", true, .long), ("a", true, .ext "decimal")] false) (.obj [("a", .int 1)])
+      = .error (.eval .type) := by
+  constructor <;> rfl
+
+/-- **typed_agrees_explicit**, precise statement: for a well-formed, serialisable instance `v` of a type `τ` whose
+    record types are closed `BTreeMap`s (`ClosedType`), every document for `v` (any implicit/explicit choice per
+    node, at every nesting depth) parses under `τ` to a value equal to `v`, and the fully explicit document parses
+    the same with and without the type. -/
+def TypedAgreesExplicitClosed : Prop :=
+  ∀ (τ : SchemaType) (v : Value), instOf v τ = true → ClosedType τ → WF v → hasReserved v = false →
+    AllExt ExtRoundTrip v →
+    (∀ j, Form (some τ) v j → ∃ v', ofJsonTyped τ j = .ok v' ∧ Value.beq v v' = true) ∧
+    (∀ j, toJson v = .ok j → ofJsonTyped τ j = ofJson j)
+
+/-- **typed_agrees_explicit** (all value shapes: scalars, entity references, the four extension types in bare /
+    implicit / explicit form, nested sets, nested closed records with optional attributes).  By
+    `typed_forms_agree` (induction over the value; `Lemmas/JsonTyped*.lean`): every document of `v` parses
+    schema-directed to the *same* restricted expression, the one the explicit document parses to without a schema. -/
+theorem typed_agrees_explicit : TypedAgreesExplicitClosed := by
+  intro τ v hinst hcl hwf hres hext
+  obtain ⟨jx, e, v', hj, hb, _, ho, hfx, hall⟩ := typed_forms_agree τ v hinst hcl hwf hres hext
+  refine ⟨fun j hf => ⟨v', (hall j hf).2, hb⟩, ?_⟩
+  intro j hj'
+  rw [hj] at hj'
+  cases hj'
+  rw [(hall _ hfx).2, ho]
+
+/-- stronger form used above, worth stating: *all* documents of `v` (implicit or explicit per node) parse under
+    `τ` to one and the same value, which is the schema-less parse of the explicit document -/
+theorem typed_forms_parse_alike (τ : SchemaType) (v : Value) (hinst : instOf v τ = true) (hcl : ClosedType τ)
+    (hwf : WF v) (hres : hasReserved v = false) (hext : AllExt ExtRoundTrip v) :
+    ∃ jx, toJson v = .ok jx ∧ ∀ j, Form (some τ) v j → ofJsonTyped τ j = ofJson jx := by
+  obtain ⟨jx, e, v', hj, _, _, ho, _, hall⟩ := typed_forms_agree τ v hinst hcl hwf hres hext
+  exact ⟨jx, hj, fun j hf => by rw [(hall j hf).2, ho]⟩
+
+/-- non-vacuity of `typed_agrees_explicit`: a closed record type with an optional attribute left out, a set of
+    records, an entity reference and two extension values; the hypotheses hold and a document mixing implicit and
+    explicit forms is a `Form` -/
+def sampleType : SchemaType :=
+  .record [("d", true, .ext "decimal"), ("o", false, .long),
+           ("s", true, .set (.record [("t", true, .ext "datetime"), ("u", true, .entity "User")] false))] false
+def sampleTyped : Value :=
+  .record [("d", .ext (.decimal 15000)),
+           ("s", .set [.record [("t", .ext (.datetime 5)), ("u", .prim (.entityUID ⟨"User", "a"⟩))]])]
+def sampleDoc : Json :=
+  .obj [("d", .str "1.5000"),
+        ("s", .arr [.obj [("t", .obj [("fn", .str "offset"), ("args", .arr [
+                              .obj [("__extn", .obj [("fn", .str "datetime"), ("arg", .str "1970-01-01")])],
+                              .obj [("__extn", .obj [("fn", .str "duration"), ("arg", .str "5ms")])]])]),
+                          ("u", .obj [("type", .str "User"), ("id", .str "a")])]])]
+
+example : instOf sampleTyped sampleType = true ∧ ClosedType sampleType ∧ WF sampleTyped ∧
+    hasReserved sampleTyped = false ∧ AllExt ExtRoundTrip sampleTyped ∧ Form (some sampleType) sampleTyped sampleDoc ∧
+    ∃ v', ofJsonTyped sampleType sampleDoc = .ok v' ∧ Value.beq sampleTyped v' = true := by
+  have hinst : instOf sampleTyped sampleType = true := by decide
+  have hcl : ClosedType sampleType := by
+    simp only [sampleType, ClosedType, ClosedAttrs, Sorted, List.map]
+    decide
+  have hwf : WF sampleTyped := by
+    simp only [sampleTyped, WF, WFKVs, WFList, Sorted, List.map]
+    decide
+  have hres : hasReserved sampleTyped = false := by decide
+  have hext : AllExt ExtRoundTrip sampleTyped := by
+    simp only [sampleTyped, AllExt, AllExtKVs, AllExtList]
+    exact ⟨extRoundTrip_decimal _ (by decide), ⟨⟨extRoundTrip_datetime _ (by decide), trivial, trivial⟩, trivial⟩, trivial⟩
+  have hform : Form (some sampleType) sampleTyped sampleDoc := by
+    refine .record _ _ _ (.cons _ "d" _ _ _ _ (.extBare "decimal" _ "decimal" "1.5000" rfl rfl)
+      (.cons _ "s" _ _ _ _ (.set _ _ _ (.cons _ _ _ _ _ (.record _ _ _
+        (.cons _ "t" _ _ _ _ (.extImplicit "datetime" _ _ rfl)
+          (.cons _ "u" _ _ _ _ (.entImplicit "User" _) (.nil _)))) (.nil _))) (.nil _)))
+  exact ⟨hinst, hcl, hwf, hres, hext, hform, (typed_agrees_explicit _ _ hinst hcl hwf hres hext).1 _ hform⟩
+
+/-- beyond conforming values (explicit documents, types without special parsing rules): under `bool`,
     `long`, `string` the schema-directed parser *is* the escape-directed parser, on every document whatsoever
     (conforming or not) that is not an explicit `unknown` call. -/
 theorem typed_agrees_explicit_scalar_partial (τ : SchemaType) (hτ : τ = .bool ∨ τ = .long ∨ τ = .string ∨ τ = .emptySet)
@@ -217,7 +352,7 @@ theorem typed_agrees_explicit_scalar_partial (τ : SchemaType) (hτ : τ = .bool
     rcases hτ with rfl | rfl | rfl | rfl <;> simp [typed, hu]
   simp [ofJsonTyped, ofJson, this]
 
-/-- part of `TypedAgreesExplicit` (entity types): the implicit `{type,id}` document and the explicit
+/-- beyond conforming values (entity types, any `ty`): the implicit `{type,id}` document and the explicit
     `{"__entity":{type,id}}` document parse, under any entity type, to the reference itself; the explicit one
     parses the same without a schema. -/
 theorem typed_agrees_explicit_entity_partial (ty : EntityType) (u : EntityUID) (hv : validName u.ty = true) :
@@ -234,7 +369,7 @@ theorem typed_agrees_explicit_entity_partial (ty : EntityType) (u : EntityUID) (
       simp [CJ.ofPrim, CJ.intoExpr, hv]
     simp [ofJson, exprOfJson, CJ.ofJson, h1, h2, h3, h4', evalR, evaluate, bind, Except.bind]
 
-/-- part of `TypedAgreesExplicit` (extension types, single-argument constructors): under the extension type
+/-- beyond conforming values (extension types, single-argument constructors, any argument string): under the extension type
     `n` with constructor `f`, the bare string `s`, the implicit call `{fn: f, arg: s}` and the explicit escape
     `{"__extn": {fn: f, arg: s}}` all parse to the same result, which is also the schema-less parse of the
     explicit escape — for every string `s`, valid or not. -/
